@@ -77,22 +77,42 @@ def check(chk):
     hs = pool.func('HostConnection.shutdown')
     s = src(hs)
     chk.judge('self._connection.close()' in s, 'C12.drain', hs, 'HostConnection.shutdown closes _connection', 'the live connection is not closed on shutdown')
-    # swap-and-drain of _trash
+    # swap-and-drain of _trash: the close loop iterates the trash itself, a local that was loaded from it before the swap, or a helper of the class that returns one of those
+    def _assigned_from_trash(fn, name):
+        for n in body_walk(fn):
+            if isinstance(n, ast.Assign) and len(n.targets) == 1:
+                t, v = n.targets[0], n.value
+                if isinstance(t, ast.Name) and t.id == name and src(v) == 'self._trash':
+                    return True
+                if isinstance(t, ast.Tuple) and isinstance(v, ast.Tuple) and len(t.elts) == len(v.elts):
+                    if any(isinstance(te, ast.Name) and te.id == name and src(ve) == 'self._trash' for te, ve in zip(t.elts, v.elts)):
+                        return True
+        return False
+
+    def _trash_source(fn, e, depth=2):
+        if src(e) == 'self._trash':
+            return True
+        if isinstance(e, ast.Name):
+            return _assigned_from_trash(fn, e.id)
+        if isinstance(e, ast.Call) and isinstance(e.func, ast.Attribute) and src(e.func.value) == 'self' and not e.args and not e.keywords and depth:
+            try:
+                h = pool.func('HostConnection.' + e.func.attr)
+            except Exception:
+                return False
+            rv = [r.value for r in body_walk(h) if isinstance(r, ast.Return)]
+            empty = lambda v: v is not None and ((isinstance(v, (ast.Tuple, ast.List)) and not v.elts) or src(v) in ('set()', 'frozenset()', 'list()', 'tuple()'))
+            return bool(rv) and all(v is not None and (empty(v) or _trash_source(h, v, depth - 1)) for v in rv) and any(not empty(v) for v in rv)
+        return False
     saved = None
     for n in body_walk(hs):
         if isinstance(n, ast.Assign) and src(n.value) == 'self._trash' and isinstance(n.targets[0], ast.Name):
             saved = n.targets[0].id
     loops = [n for n in body_walk(hs) if isinstance(n, ast.For) and any(isinstance(x, ast.Call) and isinstance(x.func, ast.Attribute) and x.func.attr == 'close'
                                                                          and src(x.func.value) == src(n.target) for x in ast.walk(n))]
-    swapped = any(isinstance(n, ast.Assign) and src(n.targets[0]) == 'self._trash' for n in body_walk(hs))
-    if saved and swapped:
-        good = any(src(l.iter) == saved for l in loops)
-        chk.judge(good, 'C12.drain', hs, 'HostConnection.shutdown closes the trashed connections it swapped out (iterates %s)' % saved,
-                  'after `%s = self._trash; self._trash = set()` the close loop iterates %s: the connections set aside for replacement are never closed'
-                  % (saved, [src(l.iter) for l in loops]))
-    else:
-        good = any(src(l.iter) == 'self._trash' for l in loops)
-        chk.judge(good, 'C12.drain', hs, 'HostConnection.shutdown closes every trashed connection', 'trashed connections are not closed on shutdown')
+    good = any(_trash_source(hs, l.iter) for l in loops)
+    chk.judge(good, 'C12.drain', hs, 'HostConnection.shutdown closes the trashed connections (the trash itself or the copy taken before it is emptied)',
+              'the close loop iterates %s: the connections set aside for replacement are never closed%s'
+              % ([src(l.iter) for l in loops], (' (after `%s = self._trash; self._trash = set()`)' % saved) if saved else ''))
     ls = pool.func('HostConnectionPool.shutdown')
     loops = [src(n.iter) for n in body_walk(ls) if isinstance(n, ast.For) and any(isinstance(x, ast.Call) and isinstance(x.func, ast.Attribute) and x.func.attr == 'close'
                                                                                  and src(x.func.value) == src(n.target) for x in ast.walk(n))]
@@ -107,7 +127,9 @@ def check(chk):
                 if 'connection_factory' in src(st.value) or (st.targets[0].attr in ('_trash',)):
                     tracked.add(st.targets[0].attr)
         for a in sorted(tracked):
-            chk.judge('self.%s' % a in src(fn), 'C12.drain', fn, '%s.shutdown handles self.%s' % (cls, a), 'connections held in self.%s are not closed by shutdown' % a)
+            helpers_ = [pool.func('%s.%s' % (cls, c_.func.attr)) for c_ in body_walk(fn) if isinstance(c_, ast.Call) and isinstance(c_.func, ast.Attribute)
+                        and src(c_.func.value) == 'self' and pool.has('%s.%s' % (cls, c_.func.attr))]
+            chk.judge(any('self.%s' % a in src(f_) for f_ in [fn] + helpers_), 'C12.drain', fn, '%s.shutdown handles self.%s' % (cls, a), 'connections held in self.%s are not closed by shutdown' % a)
 
     # ---- leaving the trash implies close
     for cls in POOLS:
